@@ -463,7 +463,8 @@ fn parse_expr(token_stream: &mut TokenStream, min_bind_pow: f64) -> Result<Expr,
                     token: Token::Operator(operator),
                 });
             }
-            let next_expr = parse_expr(token_stream, 2.0)?;
+            // Binds tighter than `*` and `/`, looser than implied multiplication and `^`
+            let next_expr = parse_expr(token_stream, 3.0)?;
             Ok(Expr::UnaryOpPrefix {
                 op: operator,
                 value: Box::new(next_expr),
